@@ -221,7 +221,21 @@ pub fn export_tables(tcx: TyCtxt<'_>) -> J {
                 if !generic && has_body {
                     if let Ok(cv) = tcx.const_eval_poly(did) {
                         match cv {
-                            ConstValue::Scalar(s) => o.push(("val", scalar_j(ty, s))),
+                            ConstValue::Scalar(s) => {
+                                let v = scalar_j(ty, s);
+                                if matches!(v, J::Null) {
+                                    // a newtype over an integer (e.g. PlatformId(u16)): export the raw unsigned bits
+                                    if let Scalar::Int(si) = s {
+                                        let size = si.size();
+                                        o.push(("val", J::Int(si.to_bits(size) as i128)));
+                                        o.push(("newtype", J::Bool(true)));
+                                    } else {
+                                        o.push(("val", J::Null));
+                                    }
+                                } else {
+                                    o.push(("val", v));
+                                }
+                            }
                             ConstValue::Indirect { alloc_id, offset } => {
                                 if let GlobalAlloc::Memory(alloc) = tcx.global_alloc(alloc_id) {
                                     let a = alloc.inner();
